@@ -175,7 +175,7 @@ void harness(void)
 #else
 	{
 		char exp[OUTSZ];
-		int sub = symx_conc(symx_u8("sub") % 5), n;
+		int sub = symx_conc(symx_u8("sub") % 7), n;
 		char *l1 = file0, *l2 = strchr(l1, '\n') + 1, *l3 = strchr(l2, '\n') + 1, *l4 = strchr(l3, '\n') + 1;
 		n = 0;
 		if (sub == 0) {		/* numbered registers: lines 1..3 deleted; the remaining line, then line 3, line 2, line 1 */
@@ -196,6 +196,21 @@ void harness(void)
 			n = add(exp, n, "\t");
 			n = add(exp, n, txt);
 			n = add(exp, n, "\n");
+		} else if (sub == 6) {	/* a quoted newline typed in insert mode splits the line like a typed one; the other lines stay */
+			nk[0] = add(keys[0], 0, "2G0aX\026\nY\033:w\n:q\n");
+			n = addn(exp, n, l1, l2 - l1);
+			n = add(exp, n, "aX\nY");
+			n = add(exp, n, l2 + 1);
+		} else if (sub == 5) {	/* J leaves the cursor on the join point, counted in characters */
+			char l1[16];
+			int n1 = slot_gen(l1, "j1", SL_ASCII | SL_2B | SL_3B, "a1");
+			n1 += slot_gen(l1 + n1, "j1", SL_ASCII | SL_2B | SL_3B, "a1");
+			flen = addn(file0, 0, l1, n1);
+			flen = add(file0, flen, "\nabcdef\n");
+			file0[flen] = 0;
+			nk[0] = add(keys[0], 0, "1GJiZ\033:w\n:q\n");
+			n = addn(exp, n, l1, n1);
+			n = add(exp, n, "Z abcdef\n");
 		} else if (sub == 4) {	/* a character-wise delete across a line end, then a line delete: "2 keeps its character-wise nature */
 			nk[0] = add(keys[0], 0, "1G3|d/x\ndd\"2p:w\n:q\n");
 			n = add(exp, n, " cd\na\xc3\xa9 \n\tend x\n");
@@ -214,6 +229,7 @@ void harness(void)
 		symx_observe_mem("file", r0.data, r0.len);
 		symx_assert(r0.len == n && !memcmp(r0.data, exp, n), sub == 0 ? "line deletions shift the numbered registers" :
 			sub == 1 ? "an upper-case register name appends" : sub == 4 ? "a shifted numbered register is put the way it was deleted (character-wise)" :
+			sub == 5 ? "J joins with one blank and leaves the cursor on it" : sub == 6 ? "multi-line input replaces only its own line" :
 			"o / O copy the indentation of the line");
 	}
 #endif
